@@ -40,6 +40,8 @@ pub struct BfsStats {
     pub counters: [u64; 8],
     pub distinct_outcomes: u64,
     pub samples: Vec<String>,
+    pub replayed: u64,
+    pub nondeterministic: Vec<String>,
 }
 
 pub struct BfsLimits {
@@ -54,6 +56,7 @@ pub fn bfs(sc: &dyn Scenario, lim: &BfsLimits, violations: &mut Vec<Violation>) 
     let mut seen: HashSet<u64> = HashSet::new();
     let mut outcomes: HashSet<u64> = HashSet::new();
     let mut frontier: Vec<Vec<Op>> = vec![vec![]];
+    let mut first: Vec<(Vec<Op>, u64, u64)> = vec![];
     stats.states = 1;
     for depth in 1..=lim.depth {
         if frontier.is_empty() {
@@ -96,6 +99,12 @@ pub fn bfs(sc: &dyn Scenario, lim: &BfsLimits, violations: &mut Vec<Violation>) 
                 *a += *b;
             }
             outcomes.insert(r.outcome);
+            if first.len() < 64 && k % 7 == 0 {
+                let (i, j) = work[k];
+                let mut h = frontier[i].clone();
+                h.push(alphabet[j].clone());
+                first.push((h, r.digest, r.outcome));
+            }
             if !r.violations.is_empty() {
                 for v in r.violations {
                     if violations.iter().filter(|x| x.class == v.class && x.prop == v.prop).count() < 20 {
@@ -133,6 +142,19 @@ pub fn bfs(sc: &dyn Scenario, lim: &BfsLimits, violations: &mut Vec<Violation>) 
         frontier = next;
     }
     stats.distinct_outcomes = outcomes.len() as u64;
+    // determinism: replay the first transitions and require identical digests and outcomes
+    for (h, d, o) in first.iter() {
+        let r = sc.eval(h);
+        stats.replayed += 1;
+        if r.digest != *d || r.outcome != *o {
+            stats.nondeterministic.push(crate::world::hist_str(h));
+        }
+    }
+    if !stats.nondeterministic.is_empty() {
+        // never a verdict: the harness does not own some source of nondeterminism
+        println!("machinery failure: replaying {} gave a different digest/outcome: {:?}", sc.name(), stats.nondeterministic);
+        std::process::exit(2);
+    }
     stats
 }
 
